@@ -60,7 +60,7 @@ pub fn campaign(ctx: &RunCtx, target: &str, jobs: u64, runs: u64, max_len: usize
             .arg(format!("-max_len={}", max_len))
             .arg(format!("-artifact_prefix={}", art))
             .arg("-rss_limit_mb=6000")
-            .arg("-timeout=60")
+            .arg("-timeout=600")
             .arg("-print_final_stats=1")
             .stdout(Stdio::null())
             // to a file, not a pipe: the jobs are only waited for one after the other, and a full pipe would stall the others
@@ -92,13 +92,16 @@ pub fn campaign(ctx: &RunCtx, target: &str, jobs: u64, runs: u64, max_len: usize
             failed_jobs += 1;
         }
     }
-    let mut artifacts: Vec<_> = std::fs::read_dir(&art).map(|rd| rd.filter_map(|e| e.ok()).map(|e| e.path()).collect()).unwrap_or_default();
+    let all: Vec<std::path::PathBuf> = std::fs::read_dir(&art).map(|rd| rd.filter_map(|e| e.ok()).map(|e| e.path()).collect()).unwrap_or_default();
+    // slow-unit-* and timeout-* files are about wall-clock time (never a verdict); crash-*, oom-* and leak-* are re-checked
+    let slow = all.iter().filter(|p| p.file_name().and_then(|n| n.to_str()).map_or(false, |n| n.starts_with("slow-unit-") || n.starts_with("timeout-"))).count();
+    let mut artifacts: Vec<_> = all.into_iter().filter(|p| p.file_name().and_then(|n| n.to_str()).map_or(false, |n| n.starts_with("crash-") || n.starts_with("oom-") || n.starts_with("leak-"))).collect();
     artifacts.sort();
     let _ = std::fs::remove_dir_all(&base);
     Ok(Campaign {
         runs_done,
         artifacts,
-        evidence: json!({"target": target, "jobs": jobs, "runs_per_job": runs, "executions": runs_done, "max_len": max_len, "seeds": seeds.len(), "edge_coverage": cov, "features": ft, "largest_corpus": corpus, "jobs_ended_abnormally": failed_jobs}),
+        evidence: json!({"target": target, "jobs": jobs, "runs_per_job": runs, "executions": runs_done, "max_len": max_len, "seeds": seeds.len(), "edge_coverage": cov, "features": ft, "largest_corpus": corpus, "jobs_ended_abnormally": failed_jobs, "slow_or_timeout_units_ignored": slow}),
     })
 }
 
